@@ -32,8 +32,10 @@ use serde::{Deserialize, Serialize};
 /// A BBS+ signature consisting of a group element `A` and a scalar `e`.
 pub struct BBSplusSignature {
     /// Group element `A` in the BBS+ signature.
+    #[serde(deserialize_with = "crate::utils::util::bbsplus_utils::checked_serde::g1_not_identity")]
     pub A: G1Projective,
     /// Scalar `e` in the BBS+ signature.
+    #[serde(deserialize_with = "crate::utils::util::bbsplus_utils::checked_serde::scalar_not_zero")]
     pub e: Scalar,
 }
 
@@ -363,6 +365,11 @@ where
     CS::Expander: for<'a> ExpandMsg<'a>,
 {
     let L = messages.len();
+
+    // the octet decoders refuse these values; the verifier refuses them however the key and the signature were built
+    if bool::from(pk.0.is_identity()) || bool::from(signature.A.is_identity()) || signature.e == Scalar::ZERO {
+        return Err(Error::SignatureVerificationError);
+    }
 
     if generators.values.len() != L + 1 {
         return Err(Error::NotEnoughGenerators);
